@@ -268,8 +268,11 @@ Definition cf_err (cf : checked) : option zerr :=
 
 (* ---- checkZip ------------------------------------------------------------------------- *)
 
-(* one zip.File: Name, UncompressedSize64 (0 <= . < 2^64), and the bytes Open() yields *)
-Record entry := mkEntry { e_name : str; e_usize : Z; e_content : str }.
+(* one zip.File: Name, UncompressedSize64 (0 <= . < 2^64), the bytes Open() yields, and what
+   the mode bits of its header say (0 nothing/regular, 1 directory, 2 symlink, 3 other).
+   checkZip and Unzip decide "directory" by the trailing slash of the name alone; e_hmode is
+   an input that nothing reads. *)
+Record entry := mkEntry { e_name : str; e_usize : Z; e_content : str; e_hmode : Z }.
 
 (* fmt.Sprintf("%s@%s/", m.Path, m.Version) *)
 Definition zip_prefix (mp mv : str) : str := mp ++ 64 :: mv ++ [47].
